@@ -22,3 +22,9 @@ claimed["C07"] = dict(
     text="In every state reachable within the depth bound, the parsed 'Changes to be committed' section equals {new: I\\T, deleted: T\\I, modified: differing ids} computed from independently decoded index and HEAD tree (absent when equal); a commit with I = T is refused and creates no object and moves no branch; a commit with I != T succeeds.",
     note="Trusted: gitfmt, the status section parser (structure only: section header and the 13-column kind field). Unborn repositories have no HEAD snapshot and are not probed here (C18/C13 own them).",
 )
+claimed["C05"] = dict(
+    category="model_checking",
+    technique="exhaustive name-set sweep (all realizable path sets up to size k over a 21-path universe with spaces, '-', '.', '+', '(', non-ASCII, depth 4), blob and sub-tree ids with 0x00/0x20/0x0a at each of the 20 positions, empty snapshot, plus a history BFS; after every commit Goit's read-back (reset --mixed + ls-files -s, cat-file -p of every tree) is compared with an independent tree decoder",
+    text="For every enumerated commit, reset --mixed to it leaves a staging area equal to the independently flattened snapshot, ls-files -s prints it, and cat-file -p of the root and every sub-tree lists exactly the direct children with kind, id and complete name.",
+    note="Trusted: gitfmt tree/commit/index decoders. Name sets above the size bound and names outside the universe are not covered.",
+)
